@@ -136,6 +136,11 @@ pub fn run(ctx: &mut Ctx) {
         thread_local! { static T: Tables = Tables::build(); }
         T.with(|t| oracle_program(t, c, p, full))
     });
+    // an instruction that failed for the values it met is met again at the same depths with other values
+    ctx.run_prop("retry_after_a_value_dependent_failure", n_prog / 2, || crate::gen_vm::retry_case(&Tables::build()), move |c, p| {
+        thread_local! { static T: Tables = Tables::build(); }
+        T.with(|t| oracle_program(t, c, p, full))
+    });
     // which variants were exercised with which outcome
     let mut never_ok: Vec<String> = vec![];
     let mut table = serde_json::Map::new();
